@@ -15,6 +15,8 @@ import (
 	"sort"
 	"strconv"
 	"strings"
+	"sync"
+	"sync/atomic"
 	"time"
 
 	"github.com/massnetorg/mass-core/pocec"
@@ -59,9 +61,9 @@ type env struct {
 	outstanding map[int]string
 	// C09 "a stopped space is not plotted or mined until asked again"
 	stopped       map[int]bool
-	pendingAtStop map[int]bool                   // a request for the space waited in the channel or the popped slot when it was stopped
-	chanOrds      []int                          // what the harness knows to be in the channel
-	prevField     map[int]engine.WorkSpaceState  // state at the previous dump
+	pendingAtStop map[int]bool                  // a request for the space waited in the channel or the popped slot when it was stopped
+	chanOrds      []int                         // what the harness knows to be in the channel
+	prevField     map[int]engine.WorkSpaceState // state at the previous dump
 	prevUsing     map[int]bool
 	poppedOrd     int
 	self          string
@@ -874,6 +876,7 @@ func main() {
 	if *focus == "C13" && !e.stuck {
 		overflow(e)
 		realPlotDB(e)
+		storm(e)
 	}
 	h.Finish("schedules of plotter micro-steps (gated by hook H3), single and bulk actions on 1-3 workspaces, keeper start/quit and scripted plot outcomes against the real keeper with a scripted plot backend; every call under a watchdog; distinct = distinct (op, output) pairs")
 }
@@ -959,24 +962,35 @@ func realPlotDB(e *env) {
 	mdb := mdbi.(*massdb_v1.MassDBV1)
 	massdb_v1.VerifCacheSize = func(required uint64) (uint64, bool) { return 64, true } // many small windows
 	defer func() { massdb_v1.VerifCacheSize, massdb_v1.VerifPoint = nil, nil }()
-	for round := 0; round < 6; round++ {
+	rounds := 150
+	if h.Tier == "thorough" {
+		rounds = 1500
+	}
+	for round := 0; round < rounds; round++ {
 		n := 0
-		stopAt := 2 + 3*round
+		stopAt := 1 + round%3
 		var stops []chan error
 		massdb_v1.VerifPoint = func(name, pass string, start, end uint64) {
 			n++
 			if n == stopAt {
-				// two stop requests during one plot, concurrently
-				c1, c2 := make(chan chan error, 1), make(chan chan error, 1)
-				go func() { c1 <- mdb.StopPlot() }()
-				go func() { c2 <- mdb.StopPlot() }()
-				stops = append(stops, <-c1, <-c2)
+				// many stop requests during one plot, released together
+				const k = 24
+				cs := make([]chan chan error, k)
+				gate := make(chan struct{})
+				for i := range cs {
+					cs[i] = make(chan chan error, 1)
+					go func(c chan chan error) { <-gate; c <- mdb.StopPlot() }(cs[i])
+				}
+				close(gate)
+				for _, c := range cs {
+					stops = append(stops, <-c)
+				}
 			}
 		}
 		res := mdb.Plot()
 		h.Res.OracleEvals++
 		if !guard(20*time.Second, func() { <-res }) {
-			fail(fmt.Sprintf("Plot() after two stops (round %d)", round))
+			fail(fmt.Sprintf("Plot() after concurrent stops (round %d)", round))
 			return
 		}
 		for _, c := range stops {
@@ -991,7 +1005,19 @@ func realPlotDB(e *env) {
 			fail("StopPlot() on an idle db")
 			return
 		}
-		if round%2 == 1 {
+		if _, plotted, _ := mdb.Progress(); plotted && round < rounds-1 {
+			// start over with a fresh pair of files: later rounds need a plot to interrupt
+			if !guard(5*time.Second, func() { <-mdb.Delete() }) {
+				fail("Delete() of the plotted db")
+				return
+			}
+			mdbi, err = massdb_v1.CreateDB(dir, int64(0), pk, bl)
+			if err != nil {
+				h.FailWith("C13:plotdb-create", err.Error(), nil)
+				return
+			}
+			mdb = mdbi.(*massdb_v1.MassDBV1)
+		} else if round%2 == 1 {
 			if !guard(5*time.Second, func() { mdb.Close() }) {
 				fail("Close()")
 				return
@@ -1035,5 +1061,84 @@ func realPlotDB(e *env) {
 	if derr != nil {
 		h.FailWith("C13:plotdb-delete-refused", "Delete() on an idle plotted space: "+derr.Error(), nil)
 	}
-	h.Res.Extra["realdb_rounds"] = 6
+	h.Res.Extra["realdb_rounds"] = rounds
+}
+
+// storm: no gates — several goroutines issue single and batch requests and queries against a running keeper
+// whose (scripted) plots end by themselves after a moment.  Every call runs under a watchdog: a call that
+// does not return is C13's deadlock; a panic in the keeper kills this process (reported as process death).
+func storm(e *env) {
+	h := e.h
+	d := 1200 * time.Millisecond
+	if h.Tier == "thorough" {
+		d = 8 * time.Second
+	}
+	for round := 0; round < 2; round++ {
+		e.newKeeper(4)
+		curGates = nil
+		e.w.auto = true
+		if err := e.sk.Start(); err != nil {
+			h.FailWith("C13:storm-start", err.Error(), nil)
+			return
+		}
+		var sids []string
+		for _, s := range e.sidOf {
+			sids = append(sids, s)
+		}
+		sort.Strings(sids)
+		stuck := make(chan string, 64)
+		var wg sync.WaitGroup
+		var calls int64
+		deadline := time.Now().Add(d)
+		for g := 0; g < 6; g++ {
+			wg.Add(1)
+			go func(g int) {
+				defer wg.Done()
+				seed := uint32(h.Seed)*2654435761 + uint32(g+1)*40503 + uint32(round)
+				rnd := func(n int) int { seed = seed*1664525 + 1013904223; return int(seed>>8) % n }
+				for time.Now().Before(deadline) {
+					sid := sids[rnd(len(sids))]
+					what := ""
+					var f func()
+					switch k := rnd(12); {
+					case k < 3:
+						what, f = "plot "+sid[:8], func() { e.sk.ActOnWorkSpace(sid, engine.Plot) }
+					case k < 5:
+						what, f = "mine "+sid[:8], func() { e.sk.ActOnWorkSpace(sid, engine.Mine) }
+					case k < 7:
+						what, f = "stop "+sid[:8], func() { e.sk.ActOnWorkSpace(sid, engine.Stop) }
+					case k == 7:
+						what, f = "plot all", func() { e.sk.ActOnWorkSpaces(engine.SFAll, engine.Plot) }
+					case k == 8:
+						what, f = "mine all", func() { e.sk.ActOnWorkSpaces(engine.SFAll, engine.Mine) }
+					case k == 9:
+						what, f = "stop all", func() { e.sk.ActOnWorkSpaces(engine.SFAll, engine.Stop) }
+					case k == 10:
+						what, f = "infos", func() { e.sk.WorkSpaceInfos(engine.SFAll); e.sk.WorkSpaceIDs(engine.SFMining) }
+					default:
+						what, f = "state", func() { e.sk.VerifState() }
+					}
+					atomic.AddInt64(&calls, 1)
+					if !guard(10*time.Second, f) {
+						stuck <- what
+						return
+					}
+				}
+			}(g)
+		}
+		wg.Wait()
+		h.Res.OracleEvals++
+		select {
+		case what := <-stuck:
+			h.FailWith("C13:storm-call-never-returns", "under concurrent requests (no gates) the call `"+what+"` did not return within 10 s: the keeper is deadlocked", []string{"storm: 6 goroutines of plot/mine/stop (single and batch) and queries against a running keeper"})
+			return
+		default:
+		}
+		if !guard(15*time.Second, func() { e.sk.Stop() }) {
+			h.FailWith("C13:storm-stop-never-returns", "Stop() after the concurrent requests did not return within 15 s", []string{"storm"})
+			return
+		}
+		h.Res.Extra[fmt.Sprintf("storm_calls_%d", round)] = atomic.LoadInt64(&calls)
+	}
+	curGates = nil
 }
